@@ -117,8 +117,8 @@ func run(c *vf.Ctx) {
 	if w, _ := dupIn([]entry{{ID: "a", Addr: "x"}, {ID: "b", Addr: "y"}}); w != "" {
 		panic("dup detector: clean")
 	}
-	nHist := c.N(8, 100)
-	nOps := c.N(8, 12)
+	nHist := c.N(8, 120)
+	nOps := c.N(8, 14)
 	if c.ReplayFile != "" {
 		nHist = 3 // the same formation + operation kinds, three times
 	}
@@ -213,6 +213,14 @@ func judge(c *vf.Ctx, r histResult) {
 			continue
 		}
 		c.Count("op:"+o.Kind, 1)
+		if o.Kind == "newnode-usedaddr-present" && strings.Contains(o.Note, "first attempt ack=false") {
+			c.Count("usedaddr_present_first_attempt_refused", 1)
+			if strings.Contains(o.Note, "duplicate address") {
+				c.Count("usedaddr_present_first_attempt_refused_duplicate_address", 1)
+			}
+		} else if o.Kind == "newnode-usedaddr-present" && strings.Contains(o.Note, "first attempt ack=true") {
+			c.Count("usedaddr_present_first_attempt_acked", 1)
+		}
 		if o.Want == "" {
 			continue
 		}
